@@ -70,7 +70,8 @@ def run_compiled(cases, tag, flavor, want, batch_size=150, keep=None):
     evs = [json.loads(l) for l in open(trace)]
     obs_by_id = {e["id"]: e for e in evs if e["ev"] == "obs"}
     by_id = {c["id"]: c for c in cases}
-    ok_ids = [c["id"] for c in cases if obs_by_id.get(c["id"], {}).get("ret", {}).get("kind") == "ok"]
+    # "nocompile": the call is part of the history of the driver process only (e.g. an include path whose file is deliberately absent)
+    ok_ids = [c["id"] for c in cases if obs_by_id.get(c["id"], {}).get("ret", {}).get("kind") == "ok" and not c.get("nocompile")]
     t0 = time.time()
     nb = 0
     for i in range(0, len(ok_ids), batch_size):
